@@ -117,6 +117,8 @@ def run(ctx):
             spec.images["e_near.png"] = (w, h, near)
             spec.words = [r.choice(["e_perm.png", "e_near.png", w_]) if w_.endswith(".png") and w_.startswith("e_") and r.random() < .35 else w_ for w_ in spec.words]
             spec.unsolicited = 0.3
+            if si % 4 == 1:
+                spec.resizes = True        # the server also announces new desktop sizes, in updates of their own or with content
             size0 = spec.size
             res = drive(r, spec)
             inp = {"words": spec.words, "delay": spec.delay, "warp": spec.warp, "size": list(size0),
